@@ -340,15 +340,14 @@ theorem modAdd_nonpow2 (sig mod incr maxIncr : Nat) (h : mod &&& (mod - 1) ≠ 0
 
 /-! ### cyclic_mask -/
 
-theorem testBit_cyclicMask (bits s e i : Nat) :
+theorem testBit_cyclicMask (bits s e i : Nat) (hs : s < bits) (he : e < bits) :
     (cyclicMask bits s e).testBit i =
       (decide (i < bits) &&
-        if s ≤ e then decide (s ≤ i ∧ i ≤ e) else decide (i ≤ e ∨ (s ≤ i ∧ i < bits))) := by
+        if s ≤ e then decide (s ≤ i ∧ i ≤ e) else decide (i ≤ e ∨ s ≤ i)) := by
   unfold cyclicMask
-  simp only [Nat.testBit_mod_two_pow]
   by_cases hse : s ≤ e
   · simp only [hse, if_true, Nat.testBit_shiftLeft, Nat.testBit_two_pow_sub_one]
-    by_cases h1 : s ≤ i <;> by_cases h2 : i ≤ e <;> simp [h1, h2] <;> omega
+    by_cases h1 : s ≤ i <;> by_cases h2 : i ≤ e <;> by_cases h3 : i < bits <;> simp [h1, h2, h3] <;> omega
   · simp only [hse, if_false, Nat.testBit_or, Nat.testBit_shiftLeft, Nat.testBit_two_pow_sub_one]
     by_cases h1 : s ≤ i <;> by_cases h2 : i ≤ e <;> by_cases h3 : i < bits <;> simp [h1, h2, h3] <;> omega
 
